@@ -27,7 +27,7 @@ EXT1 = {"tan": "UTan", "asin": "UAsin", "acos": "UAcos", "atan": "UAtan", "sinh"
         "asinh": "UAsinh", "acosh": "UAcosh", "atanh": "UAtanh", "tgamma": "UGamma", "lgamma": "ULgamma", "erf": "UErf",
         "erfc": "UErfc", "sin": "USin", "cos": "UCos", "log": "ULog", "exp": "UExp"}
 EXT2 = {"atan2": "BAtan2", "pow": "BPow"}
-FCMP = {"CreateFCmpOEQ": "OEQ", "CreateFCmpONE": "ONE", "CreateFCmpOLE": "OLE", "CreateFCmpOLT": "OLT"}
+FCMP = {"CreateFCmpOEQ": "OEQ", "CreateFCmpONE": "ONE", "CreateFCmpOLE": "OLE", "CreateFCmpOLT": "OLT", "CreateFCmpUNE": "UNE"}
 BITS = {"CreateAnd": "BitAnd", "CreateOr": "BitOr", "CreateXor": "BitXor"}
 
 
